@@ -28,7 +28,7 @@ CONSTANTS Pool,      \* set of keys (byte sequences)
           MaxCmds, MaxKeys
 
 \* default pool (cfg: Pool <- DefaultPool): same tag / other tag / empty first tag / two tags / nested braces /
-\* closing brace first / tag in the middle
+\* closing brace first / tag in the middle / two keys that share nothing but an empty brace pair
 DefaultPool == { <<123,97,125,120>>,            \* {a}x
                  <<123,97,125,121>>,            \* {a}y
                  <<123,98,125,120>>,            \* {b}x
@@ -37,7 +37,9 @@ DefaultPool == { <<123,97,125,120>>,            \* {a}x
                  <<123,123,97,125,125>>,        \* {{a}}    tag "{a"
                  <<97,125,123,98,125>>,         \* a}{b}    tag b
                  <<120,123,98,125,123,97,125>>, \* x{b}{a}  tag b
-                 <<123,195,169,125,255>> }      \* {e-acute}\xff  non-ASCII bytes inside and outside the tag
+                 <<123,195,169,125,255>>,       \* {e-acute}\xff  non-ASCII bytes inside and outside the tag
+                 <<97,123,125>>,                \* a{}     an empty tag is no tag: whole key
+                 <<98,123,125>> }               \* b{}     the same empty "tag", another slot
 
 DefaultArgPool == { <<123,98,125,120>>, <<123,97,125,121>> }   \* {b}x  {a}y
 
